@@ -95,25 +95,30 @@ pub struct Config {
     pub decoys: bool,
     pub same_claims: bool,
     pub moved_instance: bool,
+    /// the LAST thread issues one credential with this many draws and no yields inside it (a long atomic
+    /// burst of draws while the other threads sit at their hook points)
+    pub burst: usize,
 }
 
 pub fn configs(quick: bool) -> Vec<Config> {
     let mut v = vec![
-        Config { name: "T2_c1_d2_full", threads: 2, creds: 1, draws: 2, budget: 4, decoys: false, same_claims: true, moved_instance: false },
-        Config { name: "T2_c1_d3_full", threads: 2, creds: 1, draws: 3, budget: 6, decoys: false, same_claims: true, moved_instance: false },
-        Config { name: "T3_c1_d1_full", threads: 3, creds: 1, draws: 1, budget: 2, decoys: false, same_claims: false, moved_instance: false },
-        Config { name: "T2_c2_d1_full", threads: 2, creds: 2, draws: 1, budget: 2, decoys: false, same_claims: true, moved_instance: true },
-        Config { name: "T2_c1_d1_decoys", threads: 2, creds: 1, draws: 1, budget: 6, decoys: true, same_claims: true, moved_instance: false },
-        Config { name: "T3_c1_d2_before_only", threads: 3, creds: 1, draws: 2, budget: 2, decoys: false, same_claims: true, moved_instance: true },
+        Config { name: "T2_c1_d2_full", threads: 2, creds: 1, draws: 2, budget: 4, decoys: false, same_claims: true, moved_instance: false, burst: 0 },
+        Config { name: "T2_c1_d3_full", threads: 2, creds: 1, draws: 3, budget: 6, decoys: false, same_claims: true, moved_instance: false, burst: 0 },
+        Config { name: "T3_c1_d1_full", threads: 3, creds: 1, draws: 1, budget: 2, decoys: false, same_claims: false, moved_instance: false, burst: 0 },
+        Config { name: "T2_c2_d1_full", threads: 2, creds: 2, draws: 1, budget: 2, decoys: false, same_claims: true, moved_instance: true, burst: 0 },
+        Config { name: "T2_c1_d1_decoys", threads: 2, creds: 1, draws: 1, budget: 6, decoys: true, same_claims: true, moved_instance: false, burst: 0 },
+        Config { name: "T3_c1_d2_before_only", threads: 3, creds: 1, draws: 2, budget: 2, decoys: false, same_claims: true, moved_instance: true, burst: 0 },
     ];
+    v.push(Config { name: "T2_one_draw_vs_burst_300", threads: 2, creds: 1, draws: 1, budget: 2, decoys: false, same_claims: false, moved_instance: false, burst: 300 });
+    v.push(Config { name: "T3_one_draw_vs_burst_300", threads: 3, creds: 1, draws: 1, budget: 2, decoys: false, same_claims: false, moved_instance: false, burst: 300 });
     if !quick {
-        v.push(Config { name: "T4_c1_d1_first_point", threads: 4, creds: 1, draws: 1, budget: 1, decoys: false, same_claims: true, moved_instance: false });
-        v.push(Config { name: "T2_c1_d4_full", threads: 2, creds: 1, draws: 4, budget: 8, decoys: false, same_claims: false, moved_instance: false });
-        v.push(Config { name: "T3_c2_d1_first_point", threads: 3, creds: 2, draws: 1, budget: 1, decoys: false, same_claims: true, moved_instance: false });
-        v.push(Config { name: "T2_c3_d1_full", threads: 2, creds: 3, draws: 1, budget: 2, decoys: false, same_claims: true, moved_instance: false });
-        v.push(Config { name: "T2_c2_d2_full", threads: 2, creds: 2, draws: 2, budget: 4, decoys: false, same_claims: true, moved_instance: true });
-        v.push(Config { name: "T3_c1_d2_full", threads: 3, creds: 1, draws: 2, budget: 4, decoys: false, same_claims: true, moved_instance: false });
-        v.push(Config { name: "T4_c1_d1_full", threads: 4, creds: 1, draws: 1, budget: 2, decoys: false, same_claims: false, moved_instance: false });
+        v.push(Config { name: "T4_c1_d1_first_point", threads: 4, creds: 1, draws: 1, budget: 1, decoys: false, same_claims: true, moved_instance: false, burst: 0 });
+        v.push(Config { name: "T2_c1_d4_full", threads: 2, creds: 1, draws: 4, budget: 8, decoys: false, same_claims: false, moved_instance: false, burst: 0 });
+        v.push(Config { name: "T3_c2_d1_first_point", threads: 3, creds: 2, draws: 1, budget: 1, decoys: false, same_claims: true, moved_instance: false, burst: 0 });
+        v.push(Config { name: "T2_c3_d1_full", threads: 2, creds: 3, draws: 1, budget: 2, decoys: false, same_claims: true, moved_instance: false, burst: 0 });
+        v.push(Config { name: "T2_c2_d2_full", threads: 2, creds: 2, draws: 2, budget: 4, decoys: false, same_claims: true, moved_instance: true, burst: 0 });
+        v.push(Config { name: "T3_c1_d2_full", threads: 3, creds: 1, draws: 2, budget: 4, decoys: false, same_claims: true, moved_instance: false, burst: 0 });
+        v.push(Config { name: "T4_c1_d1_full", threads: 4, creds: 1, draws: 1, budget: 2, decoys: false, same_claims: false, moved_instance: false, burst: 0 });
     }
     v
 }
@@ -130,12 +135,14 @@ fn bodies(c: &Config) -> Vec<Body<ThreadOut>> {
         out.push(Box::new(move || {
             let mut issuer = pre.unwrap_or_else(|| drive::new_issuer(keys::issuer_enc(Alg::HS256, 0), Some("HS256")));
             let mut res = vec![];
+            let bursting = c.burst > 0 && t + 1 == c.threads;
             for k in 0..c.creds {
-                let u = flat_claims(c.draws, &tag);
+                let u = if bursting { flat_claims(c.burst, &tag) } else { flat_claims(c.draws, &tag) };
+                let budget = if bursting { 0 } else { c.budget };
                 if k == 0 {
-                    sched::arm(c.budget);
+                    sched::arm(budget);
                 } else {
-                    sched::api_boundary(c.budget);
+                    sched::api_boundary(budget);
                 }
                 let o = drive::issue(&mut issuer, &u, &Strat::All, None, c.decoys, Fmt::Compact);
                 sched::arm(0);
@@ -390,6 +397,35 @@ pub fn run(rep: &Report) {
         }
         global.n_salts += r["n_salts"].as_u64().unwrap_or(0);
     }
+    // path-spelling family: member names that spell another node's path ("a.a" next to a:{a:..}, "a[0]" next to a:[..])
+    {
+        let pool = ["a", "a.a", "a[0]", "b"];
+        let nt = super::common::named_trees(3, 3, &pool);
+        let mut l = Local::default();
+        for u in &nt {
+            for strat in [Strat::Top, Strat::All] {
+                for decoys in [false, true] {
+                    l.evals += 1;
+                    let cfg = Cfg { fmt: Fmt::Compact, alg: Alg::HS256, decoys, hk: Hk::None };
+                    let o = pipeline::issue_raw(u, &strat, &cfg);
+                    let h = harvest(u, &strat, &cfg, &o);
+                    let mut seen = HashSet::new();
+                    for s in h.salts.iter().chain(h.decoys.iter()) {
+                        if !seen.insert(s.clone()) {
+                            l.violation(Violation::new("issue", "duplicate_salt", "c14_duplicate_within_credential", "path_spelling_names", format!("salt or decoy digest {s} occurs twice in one credential"), json!({"kind": "c14_names", "claims": u, "strategy": strat.to_json(), "decoys": decoys})));
+                            break;
+                        }
+                    }
+                    for (site, detail) in &h.problems {
+                        l.violation(Violation::new("issue", "malformed_salt_or_digest", site.as_str(), "path_spelling_names", detail.clone(), json!({"kind": "c14_names", "claims": u, "strategy": strat.to_json(), "decoys": decoys})));
+                    }
+                    global.add(&h, "path-spelling family");
+                }
+            }
+        }
+        rep.merge(l);
+        rep.scope_done(json!({"scope": "path-spelling family: S(3,3) with member names from {a, a.a, a[0], b} x {TopLevel, AllLevels} x decoys: salts distinct within each credential and across the run", "trees": nt.len()}));
+    }
     let (inst, n) = if rep.quick() { (16, 100) } else { (16, 2000) };
     for k in [1usize, 2, 4, 8, inst] {
         histories(rep, k, n / k.max(1) * 2, &mut global);
@@ -449,6 +485,24 @@ pub fn replay(case: &Value) -> Vec<Violation> {
             }
             if let Some(d) = pool.dup.first() {
                 l.violation(mk("duplicate_salt", "c14_duplicate_within_run", d.clone()));
+            }
+        }
+        "c14_names" => {
+            let u = &case["claims"];
+            let strat = Strat::from_json(&case["strategy"]);
+            let decoys = case["decoys"].as_bool().unwrap_or(false);
+            let cfg = Cfg { fmt: Fmt::Compact, alg: Alg::HS256, decoys, hk: Hk::None };
+            let o = pipeline::issue_raw(u, &strat, &cfg);
+            let h = harvest(u, &strat, &cfg, &o);
+            let mut seen = HashSet::new();
+            for s in h.salts.iter().chain(h.decoys.iter()) {
+                if !seen.insert(s.clone()) {
+                    l.violation(Violation::new("issue", "duplicate_salt", "c14_duplicate_within_credential", "path_spelling_names", String::new(), case.clone()));
+                    break;
+                }
+            }
+            for (site, detail) in &h.problems {
+                l.violation(Violation::new("issue", "malformed_salt_or_digest", site.as_str(), "path_spelling_names", detail.clone(), case.clone()));
             }
         }
         "c14_history" | "c14_global" => {
